@@ -114,8 +114,8 @@ func errText(e error) string {
 }
 
 func runC18(c *mon.Ctx) {
-	c.Rule("objects: valid and rule-breaking claims-sets of both profiles and the P2 extension built by direct assignment / by setters (also extensions with a pointer-embedded optional claim group and pointer-receiver codecs, with two embedded structs, with an own component type) / by decoding CBOR (incl. C04's type-breaking and open-encoding tokens that still decode) / by decoding JSON, and Evidence obtained by decoding COSE (also messages with an unusual header layout: empty protected header, empty-map protected header, algorithm only in the unprotected header, algorithm as text, further labels, several unknown integer / text labels, no algorithm but other labels) and by signing. On each object a random sequence of 1..30 read-side calls (Validate, the 10 getters, component getters, CBOR/JSON encoding validating and not, generic ValidateClaims, SetClaims of the object on ANOTHER Evidence, the component container's own Validate / Values / IsEmpty / MarshalCBOR / MarshalJSON and each component's Validate; on Evidence: Verify with right / wrong / nil key, GetInstanceID, GetImplementationID, MarshalJSON), every call issued twice. Oracle: (1) the two results of each call are identical (encodings byte-identical); (2) a deep snapshot (reflective dump of every exported and unexported field reachable from the object, pointer addresses and capacities left out, map entries in canonical order; for Evidence including the hidden COSE message) is identical before and after the sequence; (2b) the raw CBOR / JSON encodings handed out for an object, and the Verify outcome of an Evidence, are kept and re-checked after six further objects were processed; (3) decode-from-buffer cases: after the decode the caller's buffer is overwritten with 0x00, 0xFF and random bytes - deep snapshot, every getter result and the Verify outcomes must not change. distinct_nontrivial = distinct (object kind, route, validity class, first calls) signatures")
-	if err := extprof.Register(extprof.ExtP2Name); err != nil {
+	c.Rule("objects: valid and rule-breaking claims-sets of both profiles and the P2 extension built by direct assignment / by setters (also extensions with a pointer-embedded optional claim group and pointer-receiver codecs, with two embedded structs, with an own component type) / by decoding CBOR (incl. tokens of a registered extension that keeps two claims undecoded as cbor.RawMessage, and C04's type-breaking and open-encoding tokens that still decode) / by decoding JSON, and Evidence obtained by decoding COSE (also messages with an unusual header layout: empty protected header, empty-map protected header, algorithm only in the unprotected header, algorithm as text, further labels, several unknown integer / text labels, no algorithm but other labels) and by signing. On each object a random sequence of 1..30 read-side calls (Validate, the 10 getters, component getters, CBOR/JSON encoding validating and not, generic ValidateClaims, SetClaims of the object on ANOTHER Evidence, the component container's own Validate / Values / IsEmpty / MarshalCBOR / MarshalJSON and each component's Validate; on Evidence: Verify with right / wrong / nil key, GetInstanceID, GetImplementationID, MarshalJSON), every call issued twice. Oracle: (1) the two results of each call are identical (encodings byte-identical); (2) a deep snapshot (reflective dump of every exported and unexported field reachable from the object, pointer addresses and capacities left out, map entries in canonical order; for Evidence including the hidden COSE message) is identical before and after the sequence; (2b) the raw CBOR / JSON encodings handed out for an object, and the Verify outcome of an Evidence, are kept and re-checked after six further objects were processed; (3) decode-from-buffer cases: after the decode the caller's buffer is overwritten with 0x00, 0xFF and random bytes - deep snapshot, every getter result and the Verify outcomes must not change. distinct_nontrivial = distinct (object kind, route, validity class, first calls) signatures")
+	if err := extprof.Register(extprof.ExtP2Name, extprof.ExtRawName); err != nil {
 		c.Violation("harness/register", err.Error(), nil)
 		return
 	}
@@ -205,6 +205,15 @@ func runC18(c *mon.Ctx) {
 			case 2:
 				route = "decoded-cbor"
 				buf = refcbor.Encode(a.WireCBOR())
+				if a.P == 2 && a.Canon == model.P2Name && g.R.Intn(4) == 0 {
+					// a registered extension that keeps two claims undecoded (cbor.RawMessage)
+					route = "decoded-cbor-extension-with-raw-claims"
+					a.Canon, a.Profile = extprof.ExtRawName, model.SP(extprof.ExtRawName)
+					w := a.WireCBOR()
+					blob := refcbor.MapOf(refcbor.I(1), refcbor.Bstr(g.Bytes(24)), refcbor.Tstr("vendor"), refcbor.Arr(refcbor.U(1), refcbor.Tstr(g.NonEmptyText())))
+					w.Items = append(w.Items, refcbor.I(-75900), blob, refcbor.I(-75901), refcbor.Bstr(g.Bytes(40)))
+					buf = refcbor.Encode(w)
+				}
 				x, err = psatoken.DecodeClaimsFromCBOR(buf)
 			case 3:
 				route = "decoded-cbor-wirecase"
